@@ -155,3 +155,82 @@ Proof.
   - eapply Z.le_trans; [|exact Hhi]. apply eff_level_mono_gen; unfold corner_cfg, doc_cfg; cbn [c_levels c_passive c_co]; try lia.
     apply skill_levels_of_le; lia.
 Qed.
+
+(* ------------------------------------------------------------------------------------------------ built scalar figures *)
+Lemma all_figures_ok : forallb figure_ok figures = true.
+Proof. vm_compute. reflexivity. Qed.
+Lemma all_figures_scoped : forallb figure_scoped figures = true.
+Proof. vm_compute. reflexivity. Qed.
+
+Lemma profile_of_In job p : profile_of job = Some p -> In p profiles.
+Proof. unfold profile_of. intros H. apply find_some in H. tauto. Qed.
+
+Lemma fid_mono p d d' vars fid : In p profiles -> fid_used p fid = true -> fid_damage fid = true ->
+  doc_ok d -> doc_ok d' -> doc_le d d' -> env_nonneg (env_of vars) ->
+  fval_le (fval (doc_cfg p d vars)) (fval (doc_cfg p d' vars)) fid.
+Proof.
+  intros Hp Hu Hfd Hok Hok' Hle Hr. unfold fid_used in Hu. unfold fid_damage in Hfd.
+  destruct (nth_error formulas fid) as [f|] eqn:En; [|discriminate].
+  apply (fval_mono _ _ fid f En Hfd (doc_cfg_le p d d' vars Hle)).
+  - exact Hr.
+  - apply documented_in_range; try assumption. eapply nth_error_In; eassumption.
+  - apply documented_in_range; try assumption. eapply nth_error_In; eassumption.
+Qed.
+
+(* HEADLINE (built scalar fields): on the documented configuration space, raising any of the seven level axes (others
+   fixed or raised as well) never lowers a damage figure of a built component: formula, then the hyper-skill
+   additions / multiplications, then the additions of skill improvements *)
+Theorem built_figure_mono p g d d' vars : profile_of (g_job g) = Some p -> In g figures -> g_damage g = true ->
+  doc_ok d -> doc_ok d' -> doc_le d d' -> env_nonneg (env_of vars) ->
+  forall v v', figure_value (doc_cfg p d vars) g = Some v -> figure_value (doc_cfg p d' vars) g = Some v' -> v <= v'.
+Proof.
+  intros Hp Hg Hd Hok Hok' Hle Hr v v' E E'.
+  pose proof (proj1 (forallb_forall _ _) all_figures_ok g Hg) as Hk. unfold figure_ok in Hk. rewrite Hd in Hk. cbn [negb orb] in Hk.
+  apply andb_prop in Hk. destruct Hk as [Hk Hpo]. apply andb_prop in Hk. destruct Hk as [Hn Hb].
+  pose proof (proj1 (forallb_forall _ _) all_figures_scoped g Hg) as Hs. unfold figure_scoped in Hs. rewrite Hp in Hs.
+  rewrite forallb_forall in Hs. rewrite forallb_forall in Hpo.
+  pose proof (profile_of_In _ _ Hp) as Hin.
+  unfold figure_value in *. eapply fig_value_le; [exact Hn| | |exact E|exact E'].
+  - intros fid Hb'. rewrite Hb' in Hb. apply fid_mono; try assumption. apply Hs. unfold fig_fids. rewrite Hb'. left. reflexivity.
+  - intros fid Hi. apply fid_mono; try assumption.
+    + apply Hs. unfold fig_fids. apply in_or_app. right. apply in_flat_map. exists (PAddF fid). split; [exact Hi|left; reflexivity].
+    + exact (Hpo (PAddF fid) Hi).
+Qed.
+
+(* ------------------------------------------------------------------------------------------------ hexa table, v improvement *)
+Lemma hexa_sweep :
+  (match gen_hexa_fdm 0 with Some a => Qle_bool 0 a | None => false end) && forallb (fstep_ok gen_hexa_fdm) (zspan 0 max_hexa_improvement) = true.
+Proof. vm_compute. reflexivity. Qed.
+
+(* the hexa improvement multiplier is defined on 0..30, non-negative and never decreases with the level *)
+Theorem hexa_table_mono l1 l2 : (0 <= l1)%Z -> (l1 <= l2)%Z -> (l2 <= max_hexa_improvement)%Z ->
+  exists a b, gen_hexa_fdm l1 = Some a /\ gen_hexa_fdm l2 = Some b /\ 0 <= a /\ a <= b.
+Proof.
+  intros H1 H12 H2. pose proof hexa_sweep as H. apply andb_prop in H. destruct H as [H0 Hs].
+  destruct (gen_hexa_fdm 0) as [z|] eqn:Ez; [|discriminate].
+  destruct (fsweep gen_hexa_fdm 0 max_hexa_improvement (ex_intro _ z Ez) Hs 0 l1) as (z' & a & E0 & Ea & Hza); try lia.
+  destruct (fsweep gen_hexa_fdm 0 max_hexa_improvement (ex_intro _ z Ez) Hs l1 l2) as (a' & b & Ea' & Eb & Hab); try lia.
+  rewrite Ea in Ea'. injection Ea' as <-. rewrite Ez in E0. injection E0 as <-.
+  exists a, b. repeat split; try assumption. apply Qle_bool_le in H0. eapply Qle_trans; eassumption.
+Qed.
+
+Lemma all_blocks_ok : forallb block_ok sblocks = true.
+Proof. vm_compute. reflexivity. Qed.
+Lemma all_blocks_scoped : forallb block_scoped sblocks = true.
+Proof. vm_compute. reflexivity. Qed.
+
+Lemma gen_v_ied_bounds l : 0 <= gen_v_ied l /\ gen_v_ied l <= 100.
+Proof.
+  unfold gen_v_ied. repeat match goal with |- context [if ?c then _ else _] => destruct c end; split; unfold Qle; cbn; lia.
+Qed.
+
+(* the v improvement multiplier scale * level and its ignored-defence bonus never decrease with the level *)
+Theorem v_improvement_mono scale l1 l2 : 0 <= scale -> (l1 <= l2)%Z ->
+  gen_v_fdm scale l1 <= gen_v_fdm scale l2 /\ gen_v_ied l1 <= gen_v_ied l2.
+Proof.
+  intros Hs H. split.
+  - unfold gen_v_fdm. pose proof (inject_Z_le _ _ H). nra.
+  - unfold gen_v_ied.
+    repeat match goal with |- context [if ?c then _ else _] => let E := fresh "E" in destruct c eqn:E end;
+      try apply Qle_refl; try (unfold Qle; cbn; lia).
+Qed.
